@@ -168,6 +168,9 @@ pub fn main() -> i32 {
     let mut replay: Option<Vec<usize>> = None;
     let mut maxsteps = 3000usize;
     let mut nthreads = 0usize;
+    // `delay t<k> <n>`: thread <k> is not scheduled during the first <n> steps (unless nothing else can
+    // run); makes nested deliveries start anywhere inside their host's operation, not just at its start
+    let mut delays: Vec<(usize, usize)> = Vec::new();
     for l in lines.iter() {
         let w: Vec<&str> = l.split_whitespace().collect();
         match w.as_slice() {
@@ -175,6 +178,7 @@ pub fn main() -> i32 {
             ["seed", n] => seed = n.parse().unwrap(),
             ["maxsteps", n] => maxsteps = n.parse().unwrap(),
             ["schedule", rest @ ..] => replay = Some(rest.iter().map(|x| x.parse().unwrap()).collect()),
+            ["delay", t, n] => delays.push((t[1..].parse().unwrap(), n.parse().unwrap())),
             [t, "nested", h, "deliver", sig] => {
                 let k: usize = t[1..].parse().unwrap();
                 let hk: usize = h[1..].parse().unwrap();
@@ -246,9 +250,15 @@ pub fn main() -> i32 {
     let mut rng = Rng(seed.wrapping_mul(0x9E3779B97F4A7C15) | 1);
     let mut pos = 0usize;
     let status = s.run(
-        |enabled, _step, g| {
+        |enabled, step, g| {
             if let Some(i) = enabled.iter().position(|&t| g.threads[t].pending.as_ref().map(|p| p.name == "start").unwrap_or(false)) {
                 return i;
+            }
+            if replay.is_none() && !delays.is_empty() {
+                let ok: Vec<usize> = (0..enabled.len()).filter(|&i| !delays.iter().any(|&(t, n)| t == enabled[i] && step < n)).collect();
+                if !ok.is_empty() {
+                    return ok[rng.below(ok.len())];
+                }
             }
             match &replay {
                 Some(r) => {
